@@ -8,7 +8,7 @@ PID = "C02"
 RULE = ("nn-op catalogue x {functional, Module} forms x geometry / mode / reduction grids x value class x upstream-gradient class; every "
         "differentiable input (data, weight, bias, gamma/beta, both MSE arguments) is compared with the FD VJP of the library's own float64 "
         "forward (affine ops exact, others Richardson); relu-family zeros and pooling ties judged by subgradient conditions; dropout mask "
-        "pinned by re-seeding; distinct key = (op, form, args, value class, g class); non-trivial = output has >1 element or a reduced "
+        "pinned by re-seeding; operands stored contiguously or as strided / transposed / shared-base views; single-requiring-input patterns; saturating magnitudes (|x|<=800) for the exp-based ops; batch-norm outputs differentiated after a later training-mode call on the same buffers; distinct key = (op, form, args, value class, g class); non-trivial = output has >1 element or a reduced "
         "loss, and g is not all-ones")
 ASSUMPTIONS = ["reference derivative = derivative of the library's own forward (values decided by C06)",
                "FD tolerance 1e-9 (affine) / 1e-6 (Richardson) relative to max(1,|phi|,|grad|); disagreeing FD estimates => inconclusive sample",
